@@ -74,4 +74,5 @@ example : simplePathM .u16 #[0x7F, 0x1F, 0xDC00, 0x41] 0 4 = .ok (false, asciiSt
 #print axioms C10_lazy_encode_indep
 #print axioms C10_lazy_path_segment
 #print axioms C10_lazy_simple_path
+#print axioms unitsOk_uOk
 end Upa.Props
